@@ -428,15 +428,15 @@ func main() {
 		}})
 	// every case hashes (or, before the fix, should have hashed) 4 GiB: one chunk, i.e. one worker, one case at a time
 	giantLens := []uint64{1<<32 - 128, 1<<32 - 1, 1<<32 + 1, 1<<32 - 129, 1<<32 - 97, 1<<32 - 96, 1<<32 - 40, 1 << 32}
-	nGiantQuick := int64(2)
+	nGiantQuick := int64(1)
 	ck.Domains = append(ck.Domains, &drv.Domain{Name: "xmss-giant-message-lengths", Size: int64(len(giantLens)), Chunk: int64(len(giantLens)),
-		Desc: "xmss.Verify with a well-sized signature and a message of 2^32-128, 2^32-1 (thorough: eight lengths 2^32-129 .. 2^32+1) zero bytes (read-only no-reserve mapping; the lengths around which type || key || message overflows a 32-bit length): a result or an explicit refusal, never a runtime fault",
+		Desc: "xmss.Verify with a well-sized signature and a message of 2^32-128 (thorough: eight lengths 2^32-129 .. 2^32+1) zero bytes (read-only no-reserve mapping; the lengths around which type || key || message overflows a 32-bit length): a result or an explicit refusal, never a runtime fault",
 		Run: func(c *drv.Ctx, lo, hi int64) {
 			initX(c.Seed)
 			for i := lo; i < hi; i++ {
 				c.At(i)
 				if c.Tier != "thorough" && i >= nGiantQuick {
-					continue // quick: 2^32-128, 2^32-1
+					continue // quick: 2^32-128
 				}
 				giant, release := drv.GiantZeros(giantLens[i])
 				if giant == nil {
